@@ -100,7 +100,7 @@ Definition pending (fs : list sframe) : list nat :=
 Arguments pending : simpl never.
 
 (* with no failure being propagated the error position is empty - or stale but harmless, when every
-   way of raising an exception overwrites it (fail_records) *)
+   way of raising an exception overwrites it (records_all) *)
 Definition eip_rel (rec : bool) (e : option nat) (fs : list sframe) : Prop :=
   match pending fs with [] => e = None \/ rec = true | [p] => e = Some p | _ => False end.
 
@@ -113,13 +113,13 @@ Definition caller_rel (rec : bool) (c : fiber) (cs : list sframe) : Prop :=
 
 Definition Inv (fl : flags) (m : vmst) (s : sst) : Prop :=
   fiber_match (fb_frames (v_fib m)) (s_frames s) /\
-  Forall2 (caller_rel (fail_records fl)) (v_callers m) (s_callers s) /\
+  Forall2 (caller_rel (records_all fl)) (v_callers m) (s_callers s) /\
   (if s_raised s then
      exists p, top_fail (s_frames s) = Some p /\ pending (s_frames s) = [p] /\
                (fb_error_ip (v_fib m) = Some p \/
-                (fb_error_ip (v_fib m) = None /\ v_ip m = p /\ s_builtin s = true /\
-                 fail_records fl = false))
-   else eip_rel (fail_records fl) (fb_error_ip (v_fib m)) (s_frames s)).
+                (fb_error_ip (v_fib m) = None /\ v_ip m = p /\
+                 exists st, s_site s = Some st /\ records fl st = false))
+   else eip_rel (records_all fl) (fb_error_ip (v_fib m)) (s_frames s)).
 
 Lemma no_pending_nil : forall fs, no_pending fs = true -> pending fs = [].
 Proof.
@@ -193,17 +193,17 @@ Qed.
 
 Section Sim.
   Variable fl : flags.
-  Hypothesis Hclear : clear_on_catch fl = true \/ fail_records fl = true.
+  Hypothesis Hclear : clear_on_catch fl = true \/ records_all fl = true.
   Hypothesis Hrebase : rebase_on_drop fl = true.
 
   Lemma sim_step : forall m s o,
     Inv fl m s -> op_okb s o = true ->
-    (fail_records fl = true \/ kc_stepb s o = false) ->
+    kc_stepb fl s o = false ->
     Inv fl (mstep fl m o) (sstep s o).
   Proof.
     intros [[mf eip] vip mcs] [sf scs raised blt] o [[Hfn Hip] [Hcs Hr]] Hok Hkc.
-    cbn [fb_frames v_fib s_frames v_callers s_callers s_raised fb_error_ip v_ip s_builtin] in *.
-    destruct o as [pc fd | | pc | pc | fc hc cpc | pc | pc fd | ].
+    cbn [fb_frames v_fib s_frames v_callers s_callers s_raised fb_error_ip v_ip s_site] in *.
+    destruct o as [pc fd | | pc | site pc | fc hc cpc | pc | pc fd | ].
     - (* OCall *)
       cbn in Hok. destruct raised; [discriminate|]. destruct sf as [|f r]; [discriminate|].
       destruct (map_eq_cons_l _ _ _ _ _ Hfn) as [g [mr [-> [Hg Hmr]]]].
@@ -237,9 +237,12 @@ Section Sim.
         * rewrite pending_cons in Hnp. apply app_eq_nil in Hnp as [_ Hnp].
           change (pending (mkSF (sf_fn f) (sf_pos f) (Some pc) :: r)) with ([pc] ++ pending r).
           rewrite Hnp; reflexivity.
-        * destruct (fail_records fl) eqn:Efr; [left; reflexivity|].
+        * destruct (records fl site) eqn:Efr; [left; reflexivity|].
           right. unfold eip_rel in Hr. rewrite Hnp in Hr.
-          destruct Hr as [Hr | Hr]; [repeat split; assumption | congruence].
+          destruct Hr as [Hr | Hr].
+          -- split; [exact Hr|]. split; [reflexivity|]. exists site. split; [reflexivity | exact Efr].
+          -- exfalso. unfold records_all in Hr. apply andb_true_iff in Hr as [Hr1 Hr2].
+             destruct site; cbn in Efr; congruence.
     - (* OUnwind *)
       unfold op_okb in Hok. cbn [s_raised s_frames] in Hok. apply andb_true_iff in Hok as [Hok Hle2]. apply andb_true_iff in Hok as [Hra Hle1].
       subst raised. destruct Hr as [p [Htf [Hpend Hdisj]]].
@@ -265,7 +268,7 @@ Section Sim.
         { intro E. apply (f_equal (@List.length _)) in E. rewrite skipn_length in E.
           destruct sf as [|f0 r0]; [cbn [List.length] in Ek; lia|].
           cbn [tl List.length] in *. lia. }
-        unfold Inv. cbn [fb_frames v_fib s_frames v_callers s_callers s_raised fb_error_ip v_ip s_builtin].
+        unfold Inv. cbn [fb_frames v_fib s_frames v_callers s_callers s_raised fb_error_ip v_ip s_site].
         split; [|split; [exact Hcs|]].
         * unfold fiber_match. rewrite set_top_ip_fn, set_top_fail_fn, set_top_ip_tl, set_top_fail_tl.
           split; [exact Hk2|]. rewrite !map_tl. f_equal. exact Hk1.
@@ -280,7 +283,7 @@ Section Sim.
       + (* the handler belongs to the innermost frame *)
         apply Nat.ltb_ge in Elt. assert (Efc : fc = List.length sf) by lia.
         unfold truncate_frames, struncate. rewrite Hlen, Efc, Nat.sub_diag. cbn [skipn].
-        unfold Inv. cbn [fb_frames v_fib s_frames v_callers s_callers s_raised fb_error_ip v_ip s_builtin andb].
+        unfold Inv. cbn [fb_frames v_fib s_frames v_callers s_callers s_raised fb_error_ip v_ip s_site andb].
         split; [|split; [exact Hcs|]].
         * unfold fiber_match. rewrite set_top_ip_fn, set_top_fail_fn, set_top_ip_tl, set_top_fail_tl.
           exact (conj Hfn Hip).
@@ -291,9 +294,8 @@ Section Sim.
              destruct (clear_on_catch fl); [left; reflexivity|].
              destruct Hclear as [Hcl | Hcl]; [discriminate | right; exact Hcl].
           -- cbn [top_fail]. cbn in Htf. rewrite Htf, pending_set_top_fail, Hpr. cbn.
-             destruct Hdisj as [E | [E1 [E2 [E3 E4]]]]; [exact E|].
-             exfalso. destruct Hkc as [Hkc | Hkc]; [congruence|].
-             cbn in Hkc. rewrite E3, Efc, Nat.eqb_refl in Hkc. discriminate.
+             destruct Hdisj as [E | [E1 [E2 [st [E3 E4]]]]]; [exact E|].
+             exfalso. cbn in Hkc. rewrite E3, E4, Efc, Nat.eqb_refl in Hkc. discriminate.
     - (* ORethrow *)
       cbn in Hok. destruct raised; [discriminate|]. cbn in Hok.
       destruct (top_fail sf) as [p|] eqn:Etf; [|discriminate].
@@ -322,18 +324,16 @@ Section Sim.
 
   Lemma sim_run : forall ops m s,
     Inv fl m s -> wf_ops s ops = true ->
-    (fail_records fl = true \/ known_classb s ops = false) ->
+    known_classb fl s ops = false ->
     Inv fl (mrun fl m ops) (srun s ops).
   Proof.
     induction ops as [|o r IH]; intros m s HI Hwf Hkc; [exact HI|].
     cbn in Hwf. apply andb_true_iff in Hwf as [Hok Hwf].
+    cbn in Hkc. apply orb_false_iff in Hkc as [Hk1 Hk2].
     unfold mrun, srun. cbn [fold_left]. apply IH.
-    - apply sim_step; [exact HI | exact Hok |].
-      destruct Hkc as [Hkc|Hkc]; [left; exact Hkc|]. right. cbn in Hkc.
-      apply orb_false_iff in Hkc. tauto.
+    - apply sim_step; [exact HI | exact Hok | exact Hk1].
     - exact Hwf.
-    - destruct Hkc as [Hkc|Hkc]; [left; exact Hkc|]. right. cbn in Hkc.
-      apply orb_false_iff in Hkc. tauto.
+    - exact Hk2.
   Qed.
 
   Lemma inv_init : forall fd, Inv fl (init_vm fd) (sinit fd).
@@ -357,7 +357,7 @@ Section Sim.
                                        top_position m = spec_top_position s.
   Proof.
     intros [[mf eip] vip mcs] [sf scs raised blt] [[Hfn Hip] [Hcs Hr]] Hra.
-    cbn [fb_frames v_fib s_frames v_callers s_callers s_raised fb_error_ip v_ip s_builtin] in *.
+    cbn [fb_frames v_fib s_frames v_callers s_callers s_raised fb_error_ip v_ip s_site] in *.
     subst raised. destruct Hr as [p [Htf [Hpend Hdisj]]].
     destruct sf as [|f r]; [discriminate|]. cbn in Htf.
     destruct (map_eq_cons_l _ _ _ _ _ Hfn) as [g [mr [-> [Hg Hmr]]]]. cbn in Hip.
@@ -374,7 +374,7 @@ Section Sim.
   (* M refines S: for every well-formed history that ends with an exception nobody handles *)
   Theorem mech_refines_spec : forall fd0 ops,
     wf_ops (sinit fd0) ops = true ->
-    (fail_records fl = true \/ known_classb (sinit fd0) ops = false) ->
+    known_classb fl (sinit fd0) ops = false ->
     s_raised (srun (sinit fd0) ops) = true ->
     muncaught (mrun fl (init_vm fd0) ops) = spec_uncaught (srun (sinit fd0) ops).
   Proof.
@@ -387,7 +387,7 @@ Section Sim.
      unwinding through finally-only handlers across frames and fibers *)
   Theorem error_ip_scoped : forall fd0 ops,
     wf_ops (sinit fd0) ops = true ->
-    (fail_records fl = true \/ known_classb (sinit fd0) ops = false) ->
+    known_classb fl (sinit fd0) ops = false ->
     s_raised (srun (sinit fd0) ops) = true ->
     top_position (mrun fl (init_vm fd0) ops) = spec_top_position (srun (sinit fd0) ops).
   Proof.
@@ -395,6 +395,16 @@ Section Sim.
     apply (inv_uncaught _ _ (sim_run ops _ _ (inv_init fd0) Hwf Hkc) Hra).
   Qed.
 End Sim.
+(* when both failure sites record the position the known class is empty *)
+Lemma known_class_empty : forall fl ops s,
+  fail_records_vm fl = true -> fail_records_native fl = true -> known_classb fl s ops = false.
+Proof.
+  intros fl ops. induction ops as [|o r IH]; intros s Hv Hn; [reflexivity|].
+  cbn [known_classb]. rewrite (IH _ Hv Hn), orb_false_r.
+  destruct o as [| | | | fc [|] cpc | | |]; try reflexivity. cbn.
+  destruct (s_site s) as [[|]|]; cbn; rewrite ?Hv, ?Hn, ?andb_false_r; reflexivity.
+Qed.
+
 Print Assumptions mech_refines_spec.
 Print Assumptions error_ip_scoped.
 
@@ -402,25 +412,26 @@ Print Assumptions error_ip_scoped.
 Definition fd_main : fdesc := mkFd "" "main" [1; 2; 3; 4; 5; 6; 7; 8; 9; 10; 11; 12]%N.
 Definition fd_g : fdesc := mkFd "g" "main" [1; 2; 3]%N.
 Definition fd_h : fdesc := mkFd "h" "lib" [20; 21; 22; 23; 24; 25; 26; 27; 28; 29; 30; 31; 32; 33]%N.
-Definition flags_now : flags := mkFlags true true false.
+Definition flags_now : flags := mkFlags true true true true.
 
 (* a caught throw on line 2, then main -> g (try/finally around the call to h) -> h, h fails on its
    line 22 by a built-in failure; g's finally re-raises: three steps of unwinding across frames *)
 Definition ex_ops : list op :=
-  [OThrow 2; OUnwind 1 true 4; OCall 8 fd_g; OCall 2 fd_h; OFail 3; OUnwind 2 false 3; ORethrow 3].
+  [OThrow 2; OUnwind 1 true 4; OCall 8 fd_g; OCall 2 fd_h; OFail SiteNative 3; OUnwind 2 false 3; ORethrow 3].
 Example error_ip_scoped_example :
-  wf_ops (sinit fd_main) ex_ops = true /\ known_classb (sinit fd_main) ex_ops = false /\
+  wf_ops (sinit fd_main) ex_ops = true /\ known_classb flags_now (sinit fd_main) ex_ops = false /\
   s_raised (srun (sinit fd_main) ex_ops) = true /\
   muncaught (mrun flags_now (init_vm fd_main) ex_ops) = Some [("main", 2, "g"); ("main", 8, "")]%N%string.
 Proof. repeat split; vm_compute; reflexivity. Qed.
 
 (* before 60972d3 (clear_on_catch = false): a caught throw on line 2 followed by an uncaught built-in
    failure on line 6 reports line 2 *)
-Definition ops_stale : list op := [OThrow 2; OUnwind 1 true 4; OFail 6].
+Definition ops_stale : list op := [OThrow 2; OUnwind 1 true 4; OFail SiteVm 6].
 Theorem error_ip_scoped_refuted_old :
-  exists ops, wf_ops (sinit fd_main) ops = true /\ known_classb (sinit fd_main) ops = false /\
+  exists ops, wf_ops (sinit fd_main) ops = true /\
+    known_classb (mkFlags false true false false) (sinit fd_main) ops = false /\
     s_raised (srun (sinit fd_main) ops) = true /\
-    top_position (mrun (mkFlags false true false) (init_vm fd_main) ops)
+    top_position (mrun (mkFlags false true false false) (init_vm fd_main) ops)
       <> spec_top_position (srun (sinit fd_main) ops).
 Proof. exists ops_stale. repeat split; vm_compute; congruence. Qed.
 
@@ -428,32 +439,34 @@ Proof. exists ops_stale. repeat split; vm_compute; congruence. Qed.
    chunk - here an index outside the caller's line table: runtime_error panics *)
 Definition ops_cross : list op := [OCall 3 fd_h; OThrow 14; OUnwind 1 false 5; ORethrow 6].
 Theorem error_ip_rebase_refuted_old :
-  exists ops, wf_ops (sinit fd_main) ops = true /\ known_classb (sinit fd_main) ops = false /\
+  exists ops, wf_ops (sinit fd_main) ops = true /\
+    known_classb (mkFlags true false true true) (sinit fd_main) ops = false /\
     s_raised (srun (sinit fd_main) ops) = true /\
-    muncaught (mrun (mkFlags true false false) (init_vm fd_main) ops) = None /\
+    muncaught (mrun (mkFlags true false true true) (init_vm fd_main) ops) = None /\
     spec_uncaught (srun (sinit fd_main) ops) = Some [("main", 3, "")]%N%string.
 Proof. exists ops_cross. repeat split; vm_compute; reflexivity. Qed.
 
 (* OPEN (fail_records = false, the tree of 2026-09-25): a built-in failure on line 2 inside
    try { } finally { } of the same call is reported at the end of the finally block (line 6) *)
-Definition ops_builtin_finally : list op := [OFail 2; OUnwind 1 false 4; ORethrow 6].
+Definition ops_builtin_finally : list op := [OFail SiteNative 2; OUnwind 1 false 4; ORethrow 6].
 Theorem error_ip_scoped_refuted_builtin :
-  exists ops, wf_ops (sinit fd_main) ops = true /\ known_classb (sinit fd_main) ops = true /\
+  exists ops, wf_ops (sinit fd_main) ops = true /\
+    known_classb (mkFlags true true true false) (sinit fd_main) ops = true /\
     s_raised (srun (sinit fd_main) ops) = true /\
-    top_position (mrun (mkFlags true true false) (init_vm fd_main) ops) = 6 /\
+    top_position (mrun (mkFlags true true true false) (init_vm fd_main) ops) = 6 /\
     spec_top_position (srun (sinit fd_main) ops) = 2 /\
     (* with the failure recorded the same history is right *)
-    top_position (mrun (mkFlags true true true) (init_vm fd_main) ops) = 2.
+    top_position (mrun (mkFlags true true true true) (init_vm fd_main) ops) = 2.
 Proof. exists ops_builtin_finally. repeat split; vm_compute; reflexivity. Qed.
 
 (* outside the well-formed histories (a new failure while a finally block is propagating another one):
    with fail_records = false the stale position of the propagating exception is used for the frame of
    a function called from the finally block - an offset of another chunk (the Rust code panics) *)
-Definition ops_in_finally : list op := [OThrow 9; OUnwind 1 false 10; OCall 11 fd_g; OFail 2].
+Definition ops_in_finally : list op := [OThrow 9; OUnwind 1 false 10; OCall 11 fd_g; OFail SiteVm 2].
 Example failure_in_finally_uses_stale_position :
   wf_ops (sinit fd_main) ops_in_finally = false /\
-  muncaught (mrun (mkFlags true true false) (init_vm fd_main) ops_in_finally) = None /\
-  muncaught (mrun (mkFlags true true true) (init_vm fd_main) ops_in_finally)
+  muncaught (mrun (mkFlags true true false true) (init_vm fd_main) ops_in_finally) = None /\
+  muncaught (mrun (mkFlags true true true true) (init_vm fd_main) ops_in_finally)
     = Some [("main", 2, "g"); ("main", 11, "")]%N%string.
 Proof. repeat split; vm_compute; reflexivity. Qed.
 
